@@ -8,6 +8,24 @@ from lib import vfmt
 
 # ------------------------------------------------------------------ script generation
 def gen_script(rng, tier, focus=None):
+    if focus == 'parked':
+        # several calls issued back to back so that they wait together between serialization and the wire: queued at
+        # a saturated pool, or behind a connect that takes a while
+        stack = rng.choice(['thrift', 'thrift', 'mux'])
+        neps = rng.choice([1, 1, 2])
+        steps = [['srv', ep, rng.choice(['echo', 'echo', 'delay', 'hold']), rng.choice([5, 20, 60])] for ep in range(neps)]
+        slow = rng.random() < 0.5
+        steps.append(['adv', 50])
+        for _ in range(rng.choice([1, 2, 3])):
+            for _ in range(rng.choice([2, 3, 4, 6])):
+                steps.append(['call', rng.choice([5, 10, 30]) * 10 + rng.randrange(1, 10)])
+            steps.append(['adv', rng.choice([1, 5, 31, 120])])
+            if rng.random() < 0.3:
+                steps.append(['release', rng.randrange(neps), rng.choice(['fifo', 'lifo'])])
+        steps += [['release', 0, 'fifo'], ['adv', 700]]
+        pool = rng.choice([[1, 1, 100], [0, 2, 100], [1, 2, 100]]) if stack == 'thrift' and not slow else None
+        return {'stack': stack, 'neps': neps, 'open_delay': rng.choice([20, 40]) if slow else 0, 'pool': pool,
+                'steps': steps}
     stack = rng.choice(['thrift', 'mux'])
     neps = rng.choice([1, 1, 2, 3])
     steps = []
